@@ -23,6 +23,12 @@ pub enum Plist {
     Data(Vec<u8>),
 }
 
+/// The deepest nesting of dictionaries and arrays we are willing to recurse into.
+///
+/// Real sources need a handful of levels; without a bound a malformed file can
+/// overflow the stack.
+const MAX_NESTING: usize = 256;
+
 #[derive(Clone, Debug, PartialEq, Eq, thiserror::Error)]
 pub enum Error {
     #[error("Unexpected character '{0}'")]
@@ -278,6 +284,15 @@ impl Plist {
     }
 
     fn parse_rec(s: &str, ix: usize) -> Result<(Plist, usize), Error> {
+        Self::parse_rec_at_depth(s, ix, 0)
+    }
+
+    fn parse_rec_at_depth(s: &str, ix: usize, depth: usize) -> Result<(Plist, usize), Error> {
+        if depth > MAX_NESTING {
+            return Err(Error::Parse(format!(
+                "nested more than {MAX_NESTING} levels deep"
+            )));
+        }
         let (tok, mut ix) = Token::lex(s, ix)?;
         match tok {
             Token::Atom(s) => Ok((Plist::parse_atom(s), ix)),
@@ -295,7 +310,7 @@ impl Plist {
                     if next.is_none() {
                         return Err(Error::ExpectedEquals);
                     }
-                    let (val, next) = Self::parse_rec(s, next.unwrap())?;
+                    let (val, next) = Self::parse_rec_at_depth(s, next.unwrap(), depth + 1)?;
                     dict.insert(key_str, val);
                     if let Some(next) = Token::expect(s, next, b';') {
                         ix = next;
@@ -310,7 +325,7 @@ impl Plist {
                     if let Some(ix) = Token::expect(s, ix, b')') {
                         return Ok((Plist::Array(list), ix));
                     }
-                    let (val, next) = Self::parse_rec(s, ix)?;
+                    let (val, next) = Self::parse_rec_at_depth(s, ix, depth + 1)?;
                     list.push(val);
                     if let Some(ix) = Token::expect(s, next, b')') {
                         return Ok((Plist::Array(list), ix));
@@ -756,6 +771,15 @@ impl<'a> Tokenizer<'a> {
     ///
     /// Named to match parse_rec.
     pub(crate) fn skip_rec(&mut self) -> Result<(), Error> {
+        self.skip_rec_at_depth(0)
+    }
+
+    fn skip_rec_at_depth(&mut self, depth: usize) -> Result<(), Error> {
+        if depth > MAX_NESTING {
+            return Err(Error::Parse(format!(
+                "nested more than {MAX_NESTING} levels deep"
+            )));
+        }
         match self.lex()? {
             Token::Atom(..) | Token::String(..) | Token::Data(..) => Ok(()),
             Token::OpenBrace => loop {
@@ -765,7 +789,7 @@ impl<'a> Tokenizer<'a> {
                 let key = self.lex()?;
                 Token::try_into_smolstr(key)?;
                 self.eat(b'=')?;
-                self.skip_rec()?;
+                self.skip_rec_at_depth(depth + 1)?;
                 self.eat(b';')?;
             },
             Token::OpenParen => {
@@ -773,7 +797,7 @@ impl<'a> Tokenizer<'a> {
                     return Ok(());
                 }
                 loop {
-                    self.skip_rec()?;
+                    self.skip_rec_at_depth(depth + 1)?;
                     if self.eat(b')').is_ok() {
                         return Ok(());
                     }
